@@ -353,9 +353,9 @@ fn dyadic_kf_strategy() -> impl Strategy<Value = KfDesc> {
 }
 
 pub fn c02_strategy() -> impl Strategy<Value = C02Case> {
-    (dyadic_timing_strategy(), ez_strategy(), prop::collection::vec(dyadic_kf_strategy(), 0..=7), prop::option::weighted(0.3, vals_strategy()), prop_oneof![6 => Just(0u8), 1 => Just(1u8), 1 => Just(2u8)]).prop_map(
-        |(timing, default_ez, kfs, start, wrap)| {
-            let tl = TlDesc { timing, default_ez, kfs, order: 0 }.sanitize();
+    (dyadic_timing_strategy(), ez_strategy(), prop::collection::vec(dyadic_kf_strategy(), 0..=7), prop::option::weighted(0.3, vals_strategy()), prop_oneof![6 => Just(0u8), 1 => Just(1u8), 1 => Just(2u8)], 0u8..8).prop_map(
+        |(timing, default_ez, kfs, start, wrap, order)| {
+            let tl = TlDesc { timing, default_ez, kfs, order }.sanitize();
             let back = tl.uses_back();
             C02Case { tl, start: start.map(|v| sanitize_vals(v, back)), wrap }
         },
